@@ -303,8 +303,14 @@ def _cash_checks(crit, ck, pl, kind, dtype, cfg, stats, seq):
     stats.checks += 4
     if tuple(cash.shape) != tuple(shape):
         raise Violation(ID, "cash_shape", site, dict(cfg, cash_shape=list(cash.shape), criterion_shape=list(shape)), seq)
-    with torch.no_grad():
-        cval = crit(cash.unsqueeze(0).expand(pl.shape).clone())
+    cval = None
+    if ck != "QuadraticCVaR":
+        try:
+            with torch.no_grad():
+                cval = crit(cash.unsqueeze(0).expand(pl.shape).clone())
+        except Exception:
+            stats.ambiguous_skipped += 1   # the criterion itself cannot evaluate the constant sample (not a cash() matter)
+            return
     mag = float(pl.abs().max()) + 1.0
     loose = ck in DEFAULT_SEARCH
     tol_v = (4e-6 * mag if loose else 0.0) + 256 * eps * (mag + abs(float(val.abs().max())))
